@@ -55,7 +55,11 @@ Proof.
 Qed.
 
 Lemma loc_eqb_spec : forall a b, loc_eqb a b = true <-> a = b.
-Proof. intros [] []; cbn; split; intro H; (reflexivity || discriminate). Qed.
+Proof.
+  intros [|m] [|n]; cbn; split; intro H; try reflexivity; try discriminate.
+  - apply N.eqb_eq in H. subst. reflexivity.
+  - inversion H. apply N.eqb_refl.
+Qed.
 
 Lemma ekey_eqb_spec : forall a b, ekey_eqb a b = true <-> a = b.
 Proof.
